@@ -1586,6 +1586,33 @@ func (ex *Exec) assignTo(st *State, lhs ast.Expr, v *Val) {
 				return
 			}
 		}
+		// field of an element of a fresh local slice of value structs: points[i].X = v
+		if ix, ok := l.X.(*ast.IndexExpr); ok {
+			if id, ok := ix.X.(*ast.Ident); ok {
+				obj := ex.info.ObjectOf(id)
+				if sl, isSlice := obj.Type().Underlying().(*types.Slice); isSlice && ex.w.isValueStruct(sl.Elem()) {
+					cur := ex.lookupVar(st, obj)
+					sel := ex.info.Selections[l]
+					if cur.FreshSlice && sel != nil && len(sel.Index()) == 1 {
+						idx := ex.eval(st, ix.Index)
+						ex.boundsCheck(st, idx.T, ex.sliceLen(cur.T), ex.pos(lhs))
+						arr := tField(cur.T, "arr")
+						at := mk("+", SInt, tField(cur.T, "off"), idx.T)
+						elt := tSelect(arr, at)
+						fv := v.T
+						ft := ex.w.sortOf(sel.Obj().Type())
+						if fv.S.Kind == KInt && ft.Kind == KReal {
+							fv = toReal(fv)
+						}
+						narr := tStore(arr, at, tWithField(elt, l.Sel.Name, fv))
+						r := tv(tMkDT(cur.T.S, ex.define("arr", narr), tField(cur.T, "off"), tField(cur.T, "len")), obj.Type())
+						r.FreshSlice = true
+						st.vars[obj] = r
+						return
+					}
+				}
+			}
+		}
 		panic(unsupported("heap store at " + ex.pos(lhs)))
 	case *ast.IndexExpr:
 		if id, ok := l.X.(*ast.Ident); ok {
@@ -1902,6 +1929,12 @@ func (ex *Exec) execLoop(st *State, n int, node ast.Node, cond ast.Expr, body *a
 			if isIntType(obj.Type()) {
 				ex.assume(head, ex.intRange(nv.T, obj.Type()))
 			}
+			if cur.FreshSlice && !ex.assignsWhole(node, obj) {
+				// only element stores in the loop: still the unshared slice made in this activation, same length
+				nv.FreshSlice = true
+				ex.assume(head, tEq(ex.sliceLen(nv.T), ex.sliceLen(cur.T)))
+				ex.assume(head, tEq(tField(nv.T, "off"), tField(cur.T, "off")))
+			}
 			head.vars[obj] = nv
 		}
 	}
@@ -2111,4 +2144,31 @@ func hasUnintZero(t *Term) bool {
 		}
 	}
 	return false
+}
+
+// assignsWhole: is the variable itself (not an element / field of it) assigned somewhere in n?
+func (ex *Exec) assignsWhole(n ast.Node, obj types.Object) bool {
+	found := false
+	ast.Inspect(n, func(x ast.Node) bool {
+		switch s := x.(type) {
+		case *ast.AssignStmt:
+			for _, l := range s.Lhs {
+				if id, ok := l.(*ast.Ident); ok && ex.info.ObjectOf(id) == obj {
+					found = true
+				}
+			}
+		case *ast.IncDecStmt:
+			if id, ok := s.X.(*ast.Ident); ok && ex.info.ObjectOf(id) == obj {
+				found = true
+			}
+		case *ast.RangeStmt:
+			for _, e := range []ast.Expr{s.Key, s.Value} {
+				if id, ok := e.(*ast.Ident); ok && ex.info.ObjectOf(id) == obj {
+					found = true
+				}
+			}
+		}
+		return true
+	})
+	return found
 }
